@@ -345,6 +345,88 @@ def F11c():
     return (seen.get("type") == "websocket" and r == [b"200"]), f"plain CONNECT without :protocol: application scope type {seen.get('type')!r}, response status {r}"
 
 
+def F2c():
+    """HTTP/2, a client that sent te: trailers, an application that sends http.response.trailers:
+    the trailers never arrive, and the NEXT response on the connection cannot be decoded by the
+    client (h2 ran the refused trailer block through its HPACK encoder: 'Invalid table index')"""
+    from hypercorn.events import Closed as _Closed, RawData as _RawData
+
+    errs = []
+
+    class H(Harness):
+        async def send(self, event):
+            if isinstance(event, _RawData):
+                try:
+                    self.events.extend(self.client.receive_data(event.data))
+                except Exception as e:  # the client cannot decode what the server wrote
+                    errs.append(repr(e))
+            elif isinstance(event, _Closed):
+                self.closed = True
+            self.out.append(event)
+
+    async def app(scope, receive, send):
+        await send({"type": "http.response.start", "status": 200, "headers": [(b"x-a", b"1")], "trailers": True})
+        await send({"type": "http.response.body", "body": b"hello", "more_body": False})
+        await send({"type": "http.response.trailers", "headers": [(b"x-trailer-one", b"abc")], "more_trailers": False})
+
+    async def sc(h):
+        h.client.send_headers(1, GET + [(b"te", b"trailers")], end_stream=True)
+        await h.flush()
+        first = [type(e).__name__ for e in h.events]
+        n = len(h.events)
+        h.client.send_headers(3, GET + [(b"te", b"trailers")], end_stream=True)
+        await h.flush()
+        return first, [type(e).__name__ for e in h.events[n:]]
+
+    h = H(app)
+    try:
+        first, second = asyncio.run(asyncio.wait_for(h.run(sc), 5))
+    except BaseException as e:  # noqa
+        return False, f"scenario did not complete: {e!r}"
+    lost = "TrailersReceived" not in first
+    broken = "ResponseReceived" not in second and any("decoding header block" in x for x in errs)
+    return (lost and broken), f"first response events {first[2:]}; second response events {second}; client errors {errs[:1]}"
+
+
+def F9a():
+    """HTTP/2: the reader task hands request body data to a stream by awaiting a put on that
+    stream's bounded application queue (max_app_queue_size).  A stream whose application is not
+    reading -- busy, or itself stalled in send() on flow control -- therefore stops the reader after
+    max_app_queue_size chunks: no other stream's frames (and no WINDOW_UPDATE) are processed until
+    that application reads."""
+    gate = {}
+
+    async def app(scope, receive, send):
+        if scope["path"] == "/slow":
+            gate["ev"] = asyncio.Event()
+            await gate["ev"].wait()  # busy: has not started reading its body yet
+            while (await receive()).get("more_body"):
+                pass
+        await send({"type": "http.response.start", "status": 200, "headers": []})
+        await send({"type": "http.response.body", "body": b"ok"})
+
+    async def sc(h):
+        h.client.send_headers(1, [(b":method", b"POST"), (b":scheme", b"http"), (b":authority", b"x"), (b":path", b"/slow")])
+        for _ in range(12):
+            h.client.send_data(1, b"x" * 10)
+        h.client.send_headers(3, [(b":method", b"GET"), (b":scheme", b"http"), (b":authority", b"x"), (b":path", b"/fast")], end_stream=True)
+        feed = asyncio.ensure_future(h.flush())
+        await asyncio.sleep(0.5)
+        before = [e.stream_id for e in h.events if isinstance(e, h2.events.ResponseReceived)]
+        blocked = not feed.done()
+        gate["ev"].set()  # the slow application starts reading: the reader is released
+        h.client.end_stream(1)
+        await feed
+        await h.flush()
+        after = [e.stream_id for e in h.events if isinstance(e, h2.events.ResponseReceived)]
+        return blocked, before, after
+    h, r, exc = run_scenario(app, sc, timeout=8)
+    if r is None:
+        return False, f"scenario did not complete: {exc!r}"
+    blocked, before, after = r
+    return (blocked and 3 not in before and 3 in after), f"while stream 1's application was not reading: reader blocked={blocked}, responses received {before}; after it started reading: {after}"
+
+
 SCENARIOS = {k: v for k, v in globals().items() if k.startswith("F") and callable(v)}
 
 if __name__ == "__main__":
